@@ -713,7 +713,7 @@ func checkOnce(c onceCase) (msg string, failed bool) {
 		return "", true // what a failed call leaves behind is not specified
 	}
 	if got := obs.Show(out.Val); got != c.Want {
-		return fmt.Sprintf("%s = %s, want %s: an argument is evaluated once, so the assignment inside it binds once", c.Text, got, c.Want), false
+		return fmt.Sprintf("%s = %s, want %s: an argument is evaluated once - an assignment inside it binds once, and a local that is only read stays as it was", c.Text, got, c.Want), false
 	}
 	return "", false
 }
@@ -729,9 +729,18 @@ func init() {
 	})
 }
 
+// c07Plain evaluates a formula on a new runner without data and shows the result.
+func c07Plain(text string) string {
+	p := obs.Parse([]byte(text))
+	if !p.OK() {
+		return "HARNESS"
+	}
+	return obs.Show(obs.Eval(formula.NewRunner(), context.Background(), p.Src.Expression).Val)
+}
+
 // TestC07ArgumentsOnce: `$n = $n + 1` as a call argument binds once, whatever the callee does with the value.
 func TestC07ArgumentsOnce(t *testing.T) {
-	run := h.Begin("C07", "arguments-once", "bounded-exhaustive: every builtin of arity 1..4 (max / min with 2 and 3 arguments) and 6 host functions of plain Go signatures (string, (string, string), int, (any, string), ...string, (float64, string)), every argument position holding '($n = $n + 1)' or '($s = $s + \\'x\\')', the other positions filled with one of 'ab', 2, null, [1], 'a' + 'b'; the formula is '$n = 0, $s = \\'a\\', F(args), [$n, $s]'; oracle: [1, 'a'] resp. [0, 'ax'] whenever the evaluation succeeds (a failing call is skipped and counted: what it leaves behind is not specified); non-trivial: the evaluation succeeded")
+	run := h.Begin("C07", "arguments-once", "bounded-exhaustive: every builtin of arity 1..4 (max / min with 2 and 3 arguments) and 6 host functions of plain Go signatures (string, (string, string), int, (any, string), ...string, (float64, string)), every argument position holding '($n = $n + 1)' or '($s = $s + \\'x\\')' - or a plain read of $n bound to a number of 21..28 digits, which must read the same afterwards -, the other positions filled with one of 'ab', 2, null, [1], 'a' + 'b'; the formula is '$n = 0, $s = \\'a\\', F(args), [$n, $s]'; oracle: [1, 'a'] resp. [0, 'ax'] whenever the evaluation succeeds (a failing call is skipped and counted: what it leaves behind is not specified); non-trivial: the evaluation succeeded")
 	defer run.End(t)
 	type fn struct {
 		name  string
@@ -759,7 +768,7 @@ func TestC07ArgumentsOnce(t *testing.T) {
 	for _, f := range fns {
 		for pos := 0; pos < f.arity; pos++ {
 			for _, filler := range []string{"'ab'", "2", "null", "[1]", "'a' + 'b'"} {
-				for k, counter := range []string{"($n = $n + 1)", "($s = $s + 'x')"} {
+				for k, counter := range []string{"($n = $n + 1)", "($s = $s + 'x')", "$n", "$n", "($n)"} {
 					idx++
 					if !h.Mine(idx) || run.NViolations() >= 3 {
 						continue
@@ -769,7 +778,15 @@ func TestC07ArgumentsOnce(t *testing.T) {
 						args[i] = filler
 					}
 					args[pos] = counter
-					c := onceCase{Text: "$n = 0, $s = 'a', " + f.name + "(" + strings.Join(args, ", ") + "), [$n, $s]", Want: []string{`[1,"a"]`, `[0,"ax"]`}[k]}
+					// reading a local as an argument leaves it as it is, whatever the callee does with the number:
+					// many-digit values, which the decimal library keeps in a different representation
+					init := []string{"0", "0", "123456789012345678901234.5", "-98765432109876543210.987654321", "55555555555555555555.5"}[k]
+					c := onceCase{Text: "$n = " + init + ", $s = 'a', " + f.name + "(" + strings.Join(args, ", ") + "), [$n, $s]"}
+					if k < 2 {
+						c.Want = []string{`[1,"a"]`, `[0,"ax"]`}[k]
+					} else {
+						c.Want = c07Plain("$n = " + init + ", $s = 'a', [$n, $s]")
+					}
 					msg, failed := checkOnce(c)
 					if failed {
 						run.Count(false, "call failed (skipped)")
